@@ -67,6 +67,38 @@ def a1(ctx, rep):
                  and (c.get('f') == 'target_os_accepted' or 'parse_context.target_os' in vt.show(c['args'][1]).replace(' ', ''))]
         rep.check(bool(calls), 'A1', f'level:{what}', f'target_os_accepted(&{item}.attrs)', f'{fn} does not consult the target-OS predicate with the {what}\'s own attributes', {'file': f['file'], 'line': f['line']})
         if fn != 'visit_file':
+            # every path on which the visitor records something for this item (a parsed item or a parse error) passes the
+            # target test of the item's own attributes — also the paths that bypass the item parser (`serialized_as` shortcuts)
+            recs = [c for c in fv['calls'] if c.get('f') == 'collect_result' or (c.get('f') in ('push', 'add', 'insert', 'extend') and vt.show(c.get('recv')).replace(' ', '').startswith('self.parsed_data'))]
+
+            def pos_terms(frames):
+                out = []
+
+                def conj(v, pos):
+                    v = vt.unvar(v)
+                    if isinstance(v, dict) and v.get('k') == 'paren':
+                        return conj(v.get('v'), pos)
+                    if isinstance(v, dict) and v.get('k') == 'op' and v.get('op') == '!' and len(v.get('args', [])) == 1:
+                        return conj(v['args'][0], not pos)
+                    if isinstance(v, dict) and v.get('k') == 'op' and v.get('op') == ('&&' if pos else '||'):
+                        for a in v['args']:
+                            conj(a, pos)
+                        return
+                    if pos:
+                        out.append(v)
+                for fr in frames:
+                    if fr.get('k') == 'if':
+                        conj(fr.get('c'), not fr.get('neg'))
+                return out
+            unguarded = []
+            for c in recs:
+                ts = pos_terms(c.get('guard', []))
+                ok_t = any(isinstance(t, dict) and t.get('k') == 'call' and t.get('f') in ('target_os_accepted', 'accept_target_os') and t.get('args') and vt.show(vt.strip(t['args'][0])) == f'{item}.attrs' for t in ts)
+                if not ok_t:
+                    unguarded.append(c)
+            rep.check(bool(recs) and not unguarded, 'A1', f'level:{what}:every-record-guarded', f'each of the {len(recs)} recording call(s) sits under target_os_accepted(&{item}.attrs)',
+                      (f"{fn} records an item at line {unguarded[0].get('line')} (`{vt.show(unguarded[0].get('args', [None])[0] if unguarded[0].get('args') else unguarded[0].get('recv'))[:70]}`) on a path that does not pass target_os_accepted(&{item}.attrs): "
+                       f"a {what} whose cfg(target_os) rejects every requested target is generated anyway") if unguarded else f'{fn} records nothing', {'file': f['file'], 'line': f['line']})
             parser = {'visit_item_struct': 'parse_struct', 'visit_item_enum': 'parse_enum'}.get(fn)
             if parser:
                 pc = [c for c in fv['calls'] if c.get('f') == parser]
